@@ -1,7 +1,9 @@
 (* C20 — mocks replay scripted expectations faithfully and report deviations.
    Property statements only; each is closed by [exact] of a lemma proved in C20/Proofs.v. *)
 From Coq Require Import List ZArith.
-From SV Require Import C20.Model C20.Proofs C20.ConsumerModel C20.ConsumerProofs.
+From SV Require Import C20.Model C20.Proofs C20.ConsumerModel C20.ConsumerProofs C20.TieGen.
+From SV Require Gen.DecC20.
+From SV Require Import Gen.DecTypes Gen.DecTypes2.
 Import ListNotations.
 
 (* The async mock is exactly the zip of messages with expectations (i-th message, i-th expectation). *)
@@ -129,3 +131,42 @@ Theorem c20_consumer_consume_reports : forall acts k off r,
                exp <> any_offset /\ exp <> off).
 Proof. exact consumer_consume_reports. Qed.
 Print Assumptions c20_consumer_consume_reports.
+
+(* --- tie to the definitions go/decgen regenerates from mocks/*.go on every check (golden coq/Gen/DecC20.v):
+   the model's steps equal the generated functions under the projections of C20/TieGen.v --- *)
+Theorem c20_tie_sync_send_message : forall s m prs crs,
+  off_ok (last s) 1 ->
+  let '(es', lo', prs', crs', acts, p, o, g) :=
+      DecC20.sync_send_message (map gexp (exps s)) (last s) (gpres m :: prs) (chk_stream (exps s) [m] ++ crs) in
+  let '(s', r) := step_sync s m in
+  es' = map gexp (exps s') /\ lo' = last s' /\
+  prs' = skipn (List.length (r_asked r)) (gpres m :: prs) /\
+  crs' = skipn (List.length (r_checked r)) (chk_stream (exps s) [m] ++ crs) /\
+  acts = res_acts r /\ gsret p o g = r_ret r.
+Proof. exact tie_sync_send_message. Qed.
+Print Assumptions c20_tie_sync_send_message.
+
+Theorem c20_tie_sync_send_messages : forall s ms prs crs,
+  off_ok (last s) (List.length ms) ->
+  let n := List.length ms in
+  let pstream := map gpres ms ++ prs in
+  let cstream := chk_stream (firstn n (exps s)) ms ++ crs in
+  let '(es', lo', prs', crs', acts, g) :=
+      DecC20.sync_send_messages (map gexp (exps s)) (last s) pstream cstream (Z.of_nat n) in
+  let '(s', r) := step_batch s ms in
+  es' = map gexp (exps s') /\ lo' = last s' /\
+  prs' = skipn (List.length (r_asked r)) pstream /\
+  crs' = skipn (List.length (r_checked r)) cstream /\
+  acts = res_acts r /\ gbret g = r_ret r.
+Proof. exact tie_sync_send_messages. Qed.
+Print Assumptions c20_tie_sync_send_messages.
+
+Theorem c20_tie_consume_partition : forall s k off topic topic_pcs pc_entry,
+  lookups_agree s k topic_pcs pc_entry ->
+  let consumed := consumed_of s k in
+  let expected := match ConsumerModel.find k (c_pcs s) with Some pc => pc_off pc | None => 0%Z end in
+  let '(consumed', acts, pc, g) := DecC20.consume_partition consumed topic (snd k) off topic_pcs pc_entry expected in
+  let '(s', e) := cstep s (AConsume k off) in
+  consumed' = consumed_of s' k /\ acts = map crep_act (t_rep e) /\ consume_obs pc g = t_obs e.
+Proof. exact tie_consume_partition. Qed.
+Print Assumptions c20_tie_consume_partition.
